@@ -29,6 +29,7 @@ RULE = (
     "that were already asked before the records making them resolvable arrived - and compares the answers. key = multiset of step outcomes in the "
     "history (append / merge / reject-no-merge / reject-multi, with case-insensitive marker); non-trivial = the history "
     "contains at least one merge or one rejection."
+    ' The at-scale histories also compare the record returned by get_record and the answer of expand_pair_all with a fresh converter (round 21).'
 )
 ASSUMPTIONS = ["matching rule restated in rtmon.mon_state.model_matches (shared CURIE or URI prefix, case-folded on request)"]
 
